@@ -122,6 +122,7 @@ struct Model {
   std::map<uint64_t, uint32_t> cnt;  // id -> multiplicity in the slot's (merged) stream
   bool all_equal = true; double eqw = 0;
   // shapes of the known findings
+  int stale_updates = 0;   // accepted updates since `stale` was set
   bool stale = false;      // a merge happened whose lighter input held the larger maximum, and no later weight >= max
   bool emptydst = false;   // the last op was a merge of a non-empty sketch with larger k into this EMPTY sketch
   bool over1 = false;      // some merge inserted a full item with probability 1 + eps
@@ -132,7 +133,11 @@ struct Model {
   double c() const { return n == 0 ? 0.0 : std::min(static_cast<double>(k), W / wmax); }
   void accept(uint64_t id, double w) {
     if (n == 0) { eqw = w; all_equal = true; } else if (w != eqw) all_equal = false;
-    n++; W += w; if (w >= wmax) { wmax = w; stale = false; }
+    n++; W += w;
+    // a weight >= the true maximum repairs a stale stored maximum, but only if no update ran with the stale value in between
+    // (such an update leaves a wrong rho behind even when its own error in c is below the tolerance)
+    if (w >= wmax) { wmax = w; if (stale_updates == 0) stale = false; }
+    if (stale) stale_updates++;
     if (n > 1 && c() * w / W < 1e-9) tiny = true;
     cnt[id]++;
     if (n > k) sampled = true;
@@ -290,6 +295,7 @@ void do_merge(Slot<T>& dst, Slot<T>& src, bool rvalue, uint32_t newk, Flags& f) 
     double heavy_max = swap ? b.wmax : a.wmax, light_max = swap ? a.wmax : b.wmax;
     bool heavy_stale = swap ? b.stale : a.stale;
     a.stale = heavy_stale || light_max > heavy_max;   // the heavier side's wt_max_ is the one that is kept
+    a.stale_updates = heavy_stale ? (swap ? b.stale_updates : a.stale_updates) : 0;
     // insertions whose share of c is absorbed by rounding: a rounding-error partial item of the lighter input, or a lighter
     // input that is negligible altogether
     const Model& light = swap ? a : b;
@@ -319,7 +325,7 @@ void do_merge(Slot<T>& dst, Slot<T>& src, bool rvalue, uint32_t newk, Flags& f) 
     a.emptydst = false;   // the first insertion step rescales the whole sample
     vf::label(swap ? "merge:heavier-into-lighter" : "merge:lighter-into-heavier");
   } else if (!src_empty && dst_empty) {
-    a.stale = b.stale;
+    a.stale = b.stale; a.stale_updates = b.stale_updates;
     a.tiny = b.tiny; a.over1 = b.over1;
     a.emptydst = b.k > a.k;
     a.merged_nonempty = b.merged_nonempty; a.upd_after_merge = b.upd_after_merge;
